@@ -40,7 +40,7 @@ theorem C01_rewrite_step_sound (env : Env) (s : Schema) (hs : s ∈ R.all) (p : 
   rw [hrec]; exact all_sound s hs p env hside hwt
 
 /-- **Eager folding computes the denotation**: whenever the folding model returns a value for a well-typed constant
-node (every operator with a proved bridge lemma: all but `rotl rotr reverse concat`), that value is the
+node (every operator with a proved bridge lemma: all but `reverse` and n-ary `concat`), that value is the
 SMT-LIB value of the node — at every width, for all constants. -/
 theorem C01_fold_sound (op : Op) (hp : Proven op = true) (vs : List CVal) (hwt : Claripy.Props.C04.WT op vs)
     (hvs : ∀ v ∈ vs, v.Canon) (c : CVal) (h : foldOp op vs = .ok c) : applyOp op (vs.map CVal.toVal) = c.toVal :=
